@@ -74,6 +74,15 @@ MUTANTS = [
     ("reset-load-keeps-stacksize-16", L + "machine/mod.rs", "        if program.stacksize != Stacksize::NotSet {", "        if program.stacksize != Stacksize::NotSet && program.stacksize != Stacksize::_48 {", ["C07"]),
     ("reset-load-skips-ram-clear", L + "machine/mod.rs", "        self.master_reset();\n        self.raw_mut().bus_mut().reset_ram();", "        self.master_reset();", ["C07"]),
     ("reset-cpu-resets-step-mode-alu", L + "machine/raw/mod.rs", "        self.alu_output = AluOutput::default();\n", "", ["C07"]),
+    # ---- interrupts (C04)
+    ("int-ff-not-cleared", L + "machine/raw/mod.rs", "            trace!(\"Clearing edge interrupt\");\n            machine.pending_edge_interrupt = None;", "            trace!(\"Clearing edge interrupt\");", ["C04"]),
+    ("int-entry-keeps-ief", L + "machine/microprogram_ram_content.rs", "0b0000101010001000100010000100), // 000010100 | DI\n    Word::from_bits_truncate(0b0000101100001001000010100100), // 000010101", "0b0000101010000000000000011000), // 000010100 | DI\n    Word::from_bits_truncate(0b0000101100000000000000011000), // 000010101", ["C04"]),
+    ("int-reti-skips-fr-pop", L + "machine/microprogram_ram_content.rs", "0b0000011000101010100111000010), // 001001011", "0b0000011000101010100101000010), // 001001011", ["C04", "C01"]),
+    ("int-lost-in-memory-wait", L + "machine/raw/mod.rs", "            trace!(\"Skipping clock. Waiting for memory.\");\n            return;", "            trace!(\"Skipping clock. Waiting for memory.\");\n            self.pending_edge_interrupt = None;\n            return;", ["C04"]),
+    ("int-taken-with-ief-clear", L + "machine/raw/signals.rs", "        self.interrupt_enable_flag() && self.address_logic_1()", "        self.address_logic_1()", ["C04"]),
+    ("int-key-pending-although-disabled", L + "machine/raw/mod.rs", "        if self.bus.is_key_edge_int_enabled() {\n            trace!(\"Key edge interrupt triggered successfully.\");", "        if self.bus.is_key_edge_int_enabled() || self.register.get(RegisterNumber::R0) == &0x42 {\n            trace!(\"Key edge interrupt triggered successfully.\");", ["C04"]),
+    ("int-sampled-by-ei", L + "machine/microprogram_ram_content.rs", "0b0000001100001000100010000100), // 000000100 | (EI)", "0b0011001110001000100010000100), // 000000100 | (EI)", ["C04"]),
+    ("int-cpu-reset-keeps-pending-in-run", L + "machine/raw/mod.rs", "        if machine.signals().interrupt_logic_1() {", "        if machine.signals().interrupt_logic_1() && machine.register.get(RegisterNumber::R5) != &0xEB {", ["C04"]),
     # ---- cycles (C15)
     ("cyc-wait-also-for-io", L + "machine/raw/mod.rs", "            if *register_out_a <= 0xEF {\n                trace!(\"Generating artificial wait signal\");\n                machine.pending_wait_for_memory = Some(MemoryWait);\n            }\n        } else {\n            machine.last_bus_read = 0;", "            if *register_out_a <= 0xFB {\n                trace!(\"Generating artificial wait signal\");\n                machine.pending_wait_for_memory = Some(MemoryWait);\n            }\n        } else {\n            machine.last_bus_read = 0;", ["C15"]),
     ("cyc-no-wait-reading-0x80", L + "machine/raw/mod.rs", "            if *register_out_a <= 0xEF {\n                trace!(\"Generating artificial wait signal\");\n                machine.pending_wait_for_memory = Some(MemoryWait);\n            }\n        } else {\n            machine.last_bus_read = 0;", "            if *register_out_a <= 0xEF && *register_out_a != 0x80 {\n                trace!(\"Generating artificial wait signal\");\n                machine.pending_wait_for_memory = Some(MemoryWait);\n            }\n        } else {\n            machine.last_bus_read = 0;", ["C15"]),
